@@ -24,7 +24,8 @@ _so = "src/fandango/language/parser/sa_fandango_cpp_parser.so"
 if os.path.exists("/repo/" + _so) and not os.path.exists(os.path.join(WT, _so)):
     import shutil as _sh
     _sh.copy2("/repo/" + _so, os.path.join(WT, _so))
-r = subprocess.run(["git", "-C", WT, "apply", os.path.abspath(patch)], capture_output=True, text=True)
+r = subprocess.run(["git", "-C", WT, "apply", "--3way", os.path.abspath(patch)], capture_output=True, text=True)
+subprocess.run(["git", "-C", WT, "reset", "-q"])
 if r.returncode:
     sys.exit("patch does not apply: " + r.stderr)
 env = dict(os.environ, VERIF_REPO=WT)
